@@ -28,10 +28,12 @@ const (
 	aFail
 	aNoop
 	aSetEmpty // a successful item that stores the empty value
+	aFailOnce // an item whose handler fails the first time it runs and succeeds when run again (an item middleware may retry)
+	aNested   // an item whose handler sends a request of its own through the executor, refused as a whole
 	nActions
 )
 
-var actionNames = []string{"set", "read", "fail", "noop", "set-empty"}
+var actionNames = []string{"set", "read", "fail", "noop", "set-empty", "fail-once", "nested-refused-request"}
 
 type monitor struct {
 	inside  atomic.Int64
@@ -68,10 +70,27 @@ func executor(m *monitor) *kmipserver.BatchExecutor {
 		runtime.Gosched()
 		return &payloads.DestroyResponsePayload{UniqueIdentifier: "read:" + v}, nil
 	}))
+	var once sync.Map // "once:<id>" -> *atomic.Int64: how often the handler ran for it
 	ex.Route(kmip.OperationArchive, kmipserver.HandleFunc(func(ctx context.Context, req *payloads.ArchiveRequestPayload) (*payloads.ArchiveResponsePayload, error) {
 		enter()
 		defer leave()
+		if strings.HasPrefix(req.UniqueIdentifier, "once:") {
+			n, _ := once.LoadOrStore(req.UniqueIdentifier, new(atomic.Int64))
+			if n.(*atomic.Int64).Add(1) >= 2 {
+				return &payloads.ArchiveResponsePayload{UniqueIdentifier: req.UniqueIdentifier}, nil
+			}
+		}
 		return nil, errors.New("scripted failure")
+	}))
+	ex.Route(kmip.OperationObtainLease, kmipserver.HandleFunc(func(ctx context.Context, req *payloads.ObtainLeaseRequestPayload) (*payloads.ObtainLeaseResponsePayload, error) {
+		enter()
+		defer leave()
+		// a request of the handler's own, under the handler's context, refused as a whole (unsupported version):
+		// it is another request, with a placeholder of its own
+		sub := &kmip.RequestMessage{Header: kmip.RequestHeader{ProtocolVersion: kmip.ProtocolVersion{ProtocolVersionMajor: 9, ProtocolVersionMinor: 9}, BatchCount: 1},
+			BatchItem: []kmip.RequestBatchItem{{Operation: kmip.OperationActivate, RequestPayload: &payloads.ActivateRequestPayload{UniqueIdentifier: "sub"}}}}
+		ex.HandleRequest(ctx, sub)
+		return &payloads.ObtainLeaseResponsePayload{UniqueIdentifier: req.UniqueIdentifier, LeaseTime: time.Hour, LastChangeDate: time.Unix(1700000000, 0)}, nil
 	}))
 	ex.Route(kmip.OperationGetAttributeList, kmipserver.HandleFunc(func(ctx context.Context, req *payloads.GetAttributeListRequestPayload) (*payloads.GetAttributeListResponsePayload, error) {
 		enter()
@@ -101,10 +120,7 @@ func program(r *core.Rand) []int {
 		case 6:
 			p[i] = aFail
 		default:
-			p[i] = aNoop
-			if r.P(1, 2) {
-				p[i] = aSetEmpty
-			}
+			p[i] = []int{aNoop, aSetEmpty, aFailOnce, aNested}[r.Intn(4)]
 		}
 	}
 	return p
@@ -125,19 +141,34 @@ func build(reqID string, prog []int) *kmip.RequestMessage {
 		bi := kmip.RequestBatchItem{UniqueBatchItemID: []byte{byte(i + 1)}}
 		switch a {
 		case aSet:
-			bi.Operation, bi.RequestPayload = kmip.OperationActivate, &payloads.ActivateRequestPayload{UniqueIdentifier: fmt.Sprintf("%s:%d", reqID, i)}
+			bi.Operation, bi.RequestPayload = kmip.OperationActivate, &payloads.ActivateRequestPayload{UniqueIdentifier: setValue(reqID, i)}
 		case aRead:
 			bi.Operation, bi.RequestPayload = kmip.OperationDestroy, &payloads.DestroyRequestPayload{UniqueIdentifier: []string{"r", "r2"}[i%2]}
 		case aFail:
 			bi.Operation, bi.RequestPayload = kmip.OperationArchive, &payloads.ArchiveRequestPayload{UniqueIdentifier: "f"}
 		case aSetEmpty:
 			bi.Operation, bi.RequestPayload = kmip.OperationGetAttributeList, &payloads.GetAttributeListRequestPayload{UniqueIdentifier: "e"}
+		case aFailOnce:
+			bi.Operation, bi.RequestPayload = kmip.OperationArchive, &payloads.ArchiveRequestPayload{UniqueIdentifier: fmt.Sprintf("once:%s:%d", reqID, i)}
+		case aNested:
+			bi.Operation, bi.RequestPayload = kmip.OperationObtainLease, &payloads.ObtainLeaseRequestPayload{UniqueIdentifier: "c"}
 		default:
 			bi.Operation, bi.RequestPayload = kmip.OperationRecover, &payloads.RecoverRequestPayload{UniqueIdentifier: reqID + ":explicit"}
 		}
 		m.BatchItem = append(m.BatchItem, bi)
 	}
 	return m
+}
+
+// setValue is what item i of a request stores: every third value is blank-padded (a fixed-width label is a legal identifier)
+func setValue(reqID string, i int) string {
+	if i%3 == 2 {
+		return fmt.Sprintf("%s:%d  ", reqID, i)
+	}
+	if i%3 == 1 && i > 2 {
+		return fmt.Sprintf("%s:%d\t", reqID, i)
+	}
+	return fmt.Sprintf("%s:%d", reqID, i)
 }
 
 func progString(p []int) string {
@@ -150,6 +181,23 @@ func progString(p []int) string {
 
 // judge replays the sequential register model over the items of one request.
 func judge(c *core.Ctx, reqID string, prog []int, resp *kmip.ResponseMessage, via string) {
+	// a fail-once item is a failed item unless an item middleware ran it again (then it succeeded and touched nothing)
+	model := append([]int{}, prog...)
+	for i, a := range model {
+		switch {
+		case a == aFailOnce && strings.Contains(via, "item-retry"):
+			if resp != nil && i < len(resp.BatchItem) && resp.BatchItem[i].ResultStatus != kmip.ResultStatusSuccess {
+				c.Inconclusive(fmt.Sprintf("request %s item %d: the retried item still failed", reqID, i))
+				return
+			}
+			model[i] = aNoop // no effect on the placeholder
+		case a == aFailOnce:
+			model[i] = aFail
+		case a == aNested:
+			model[i] = aNoop // no effect on the placeholder
+		}
+	}
+	prog = model
 	c.Count("requests", 1)
 	c.Count("requests."+strings.SplitN(via, ",", 2)[0], 1)
 	if resp == nil || len(resp.BatchItem) != len(prog) {
@@ -162,7 +210,7 @@ func judge(c *core.Ctx, reqID string, prog []int, resp *kmip.ResponseMessage, vi
 	for i, a := range prog {
 		switch a {
 		case aSet:
-			cur = fmt.Sprintf("%s:%d", reqID, i)
+			cur = setValue(reqID, i)
 			afterFail = false
 		case aSetEmpty:
 			if cur != "" {
@@ -274,6 +322,17 @@ func direct(c *core.Ctx, r *core.Rand, i int) {
 	if withSplit {
 		ex.Use(splitMiddleware)
 	}
+	withItemRetry := (i/4)%2 == 1
+	if withItemRetry {
+		// runs the rest of the item chain once more when it returned an error (and swallows the first error)
+		ex.BatchItemUse(func(next kmipserver.BatchItemNext, ctx context.Context, bi *kmip.RequestBatchItem) (*kmip.ResponseBatchItem, error) {
+			resp, err := next(ctx, bi)
+			if err != nil {
+				return next(ctx, bi)
+			}
+			return resp, err
+		})
+	}
 	N := 2 + r.Intn(63)
 	var wg sync.WaitGroup
 	start := make(chan struct{})
@@ -293,10 +352,14 @@ func direct(c *core.Ctx, r *core.Rand, i int) {
 					c.Count("retried_requests", 1)
 				}
 				via := "direct"
+				if withItemRetry {
+					via = "direct, item-retry middleware"
+					c.Count("item_retry_requests", 1)
+				}
 				if withSplit && !retried && len(prog) > 1 && rr.P(1, 2) {
 					req.Header.ClientCorrelationValue = fmt.Sprintf("split:%d", 1+rr.Intn(len(prog)-1))
 					c.Count("split_requests", 1)
-					via = "direct, batch split by a middleware (" + req.Header.ClientCorrelationValue + ")"
+					via += ", batch split by a middleware (" + req.Header.ClientCorrelationValue + ")"
 				}
 				var resp *kmip.ResponseMessage
 				if p, pv, st := core.Guard(func() { resp = ex.HandleRequest(context.Background(), req) }); p {
@@ -371,9 +434,9 @@ func Spec() *core.Spec {
 		Level: "exploration",
 		Race:  true,
 		Rule: "seeded programs of 1-8 batch items over {set (value = request id + item index), read, fail, noop}; 2-64 goroutines issuing requests through BatchExecutor.HandleRequest at once (handlers yield so that items of different requests interleave; in half of the rounds a retry middleware runs the chain twice for a quarter of the requests) and 1-16 real server connections each sending a sequence of 6 requests; " +
-			"every read is checked against a per-request sequential register model starting empty; any value carrying another request's id is a leak, identified exactly; race reports whose stacks are the placeholder accessors are violations. a fifth action storing the empty value; reads through IdPlaceholder and through GetIdOrPlaceholder; items resolving an explicit identifier in between; Batch Order Option absent/true/false; a batch-splitting message middleware (chunks through separate continuation calls); distinct = distinct programs",
+			"every read is checked against a per-request sequential register model starting empty; any value carrying another request's id is a leak, identified exactly; race reports whose stacks are the placeholder accessors are violations. a fifth action storing the empty value; reads through IdPlaceholder and through GetIdOrPlaceholder; items resolving an explicit identifier in between; blank-padded values; items whose handler fails once under an item-retry middleware; handlers sending a refused request of their own; Batch Order Option absent/true/false; a batch-splitting message middleware (chunks through separate continuation calls); distinct = distinct programs",
 		Assumptions: []string{"after a failed item both the previous value and the empty value are accepted (the statement is silent on clearing)"},
-		Required:    []string{"requests.direct", "requests.wire", "reads", "handler_overlaps", "connections", "retried_requests", "split_requests", "empty_value_stored_over_a_value"},
+		Required:    []string{"requests.direct", "requests.wire", "reads", "handler_overlaps", "connections", "retried_requests", "split_requests", "empty_value_stored_over_a_value", "item_retry_requests"},
 		RaceVerdict: func(r core.RaceReport) (string, bool) {
 			for _, st := range r.Frames {
 				for _, f := range st {
